@@ -125,15 +125,23 @@ def check_c01(pid, tier, seed, replay=None):
             ls = PK.opening(l, hs) + sum(([f'psyn 0 {k}' + ('' if (k % 3 == 2 or k == na.get(l, 1) - 1) else ' gp=-1'), 'pout 0', 'pread 0 -1'] for k in range(na.get(l, 0))), []) + ['pclr 0 bdci']
             scns.append(Scn(f'real-L{l}-hs{hs}', ls, 'real-stream-counts', budget=30, cost=len(ls)))
     # encoder-made setup headers, one to three bits away from the original: the strict reader (SetupParse.tla) and the decoder must agree on those the reader finds well-formed
-    nflip = 160 if q else 6000
+    nflip = 96 if q else 6000
+    flips = []
     for i in range(nflip):
         l = rng.choice([0, 1, 2, 3, 6] if q else links); nb = 40000
         mut = f'm=flip:{rng.randrange(56, nb)}' if i % 4 else f'm=flips:{rng.randrange(100000)}:{rng.choice([2, 3])}'
         ls = [f'pnew 0 {l}', 'phdr 0 0', 'phdr 0 1', f'phdr 0 2 {mut} dump', 'pinit 0', 'psyn 0 0', 'pout 0', 'pread 0 -1', 'psyn 0 1', 'pout 0', 'pread 0 -1', 'psyn 0 2', 'pout 0', 'pread 0 -1', 'pclr 0 bdci']
-        scns.append(Scn(f'hdrflip-{i}-L{l}', ls, 'real-header-bit-flips', budget=30, cost=25))
-    for s_ in scns: s_.prelude = PK.prelude(links)
-    res = run_batch(pid, scns, bindir, 'pdh', *TRACE, prelude=PK.prelude(links))
-    verdicts = header_verdicts(res)
+        flips.append(Scn(f'hdrflip-{i}-L{l}', ls, 'real-header-bit-flips', budget=30, cost=25))
+    for s_ in scns + flips: s_.prelude = PK.prelude(links)
+    def flip_run():
+        r = run_batch(pid + 'h', flips, bindir, 'pdh', *TRACE, prelude=PK.prelude(links), nproc=6); return r, header_verdicts(r)
+    with ThreadPoolExecutor(max_workers=2) as ex0:
+        ff = ex0.submit(flip_run)
+        res = run_batch(pid, scns, bindir, 'pdh', *TRACE, prelude=PK.prelude(links), nproc=12)
+        fres, verdicts = ff.result()
+    for k in ('events', 'states', 'transitions', 'traces', 'harness_s', 'tlc_s'): res[k] += fres[k]
+    for k in ('viols', 'drifts', 'infra'): res[k] += fres[k]
+    res['scn_events'].update(fres['scn_events']); scns += flips
     res['infra'] += pr['infra']
     if any(k == 'infra' for k, _, _ in problems + mcproblems): res['infra'].append('TLC failed on a generator / design-level run')
     def nontrivial(s, evs): return any(e.get('e') == 'SynthInit' and e.get('ret') == 0 for e in evs) and sum(1 for e in evs if e.get('e') == 'Synthesis' and e.get('rs') == 0) >= 3
